@@ -244,6 +244,33 @@ func (c *Ctx) Vf(format string, a ...interface{}) {
 	}
 }
 
+var curFile *os.File
+
+// Cur records what is about to run in a side file (<log>.cur, overwritten in
+// place): a fatal fault cannot be recovered, so the orchestrator reads this
+// file to name the input that was running when the worker died.
+func (c *Ctx) Cur(format string, a ...interface{}) {
+	if c.Verbose {
+		fmt.Printf("CUR "+format+"\n", a...)
+	}
+	if *fOut == "" {
+		return
+	}
+	if curFile == nil {
+		f, err := os.OpenFile(*fOut+".cur", os.O_CREATE|os.O_RDWR|os.O_TRUNC, 0o644)
+		if err != nil {
+			return
+		}
+		curFile = f
+	}
+	b := []byte(fmt.Sprintf(format, a...))
+	if len(b) > 4000 {
+		b = append(b[:4000], "..."...)
+	}
+	curFile.WriteAt(b, 0)
+	curFile.Truncate(int64(len(b)))
+}
+
 // Guard runs f and converts a panic into a violation of the current case.
 func (c *Ctx) Guard(i int, api string, f func()) (panicked bool) {
 	defer func() {
